@@ -408,6 +408,62 @@ fn directed(run: &mut Run, tier: Tier) {
     run.add("frames_with_a_compressed_block", x[0]);
 }
 
+/// the Huffman table reuse decision (treeless literals) over every pair of small alphabets: a matcher that
+/// reports no matches at all, so every block is one literals section of 1100 bytes
+fn table_reuse(run: &mut Run, tier: Tier) {
+    let th = meter::threads();
+    let nsym = tier.pick(5usize, 6);
+    let subsets: Vec<Vec<u8>> = (1u32..(1 << nsym)).filter(|m| m.count_ones() >= 2).map(|m| (0..nsym as u8).filter(|b| m >> b & 1 == 1).collect()).collect();
+    // three frequency profiles per alphabet: descending, ascending, flat with one dominant symbol
+    let block = |syms: &[u8], profile: usize, salt: u64| -> Vec<u8> {
+        let n = 1100usize;
+        let k = syms.len();
+        let w: Vec<usize> = (0..k)
+            .map(|r| match profile {
+                0 => 1 << (k - 1 - r).min(9),
+                1 => 1 << r.min(9),
+                _ => {
+                    if r == k / 2 {
+                        40
+                    } else {
+                        3
+                    }
+                }
+            })
+            .collect();
+        let tot: usize = w.iter().sum();
+        let mut v = vec![];
+        for (r, wr) in w.iter().enumerate() {
+            v.extend(std::iter::repeat(syms[r]).take((wr * n / tot).max(1)));
+        }
+        while v.len() < n {
+            v.push(syms[0]);
+        }
+        v.truncate(n);
+        let mut rnd = cmp::xorshift(salt);
+        for i in (1..v.len()).rev() {
+            let j = (rnd() % (i as u64 + 1)) as usize;
+            v.swap(i, j);
+        }
+        // make sure every symbol of the alphabet occurs
+        for (i, s) in syms.iter().enumerate() {
+            v[i * 7 % n] = *s;
+        }
+        v
+    };
+    let total = subsets.len() * subsets.len() * 9;
+    let accs = meter::par_fold(total, th, Acc::default, |a, i| {
+        let (s1, s2, prof) = (&subsets[i / 9 / subsets.len()], &subsets[(i / 9) % subsets.len()], i % 9);
+        let mut input = block(s1, prof / 3, 1);
+        input.extend(block(s2, prof % 3, 2));
+        // a third block over the first alphabet again: reuse after reuse / after a new table
+        input.extend(block(s1, prof / 3, 3));
+        case(a, &input, 1100, 1 << 17, &[vec![], vec![], vec![]], "table reuse, literal-only blocks");
+    });
+    let x = merge(run, "C16", &format!("huffman_table_reuse_all_pairs_of_alphabets_up_to_{nsym}_symbols"), accs, true);
+    run.add("frames_with_a_compressed_block", x[0]);
+}
+
 pub fn main(tier: Tier, replay: Option<Value>) -> i32 {
     if replay.is_some() {
         println!("C16 replays are parse descriptions; rerun ./check C16");
@@ -417,8 +473,9 @@ pub fn main(tier: Tier, replay: Option<Value>) -> i32 {
     complete_small(&mut run, tier);
     restricted_moves(&mut run, tier);
     directed(&mut run, tier);
+    table_reuse(&mut run, tier);
     run.set("exhaustive", false);
-    run.set("rule", "a scripted Matcher replays a parse through the public trait. (a) every input over {a,b} of length 3..=12/14, cut into blocks of 4 and of 11 bytes, with EVERY valid parse of every block (all tilings by literal runs and matches of length >= 3 at every offset whose source really equals the target, incl. zero-length literal runs, overlapping matches and matches into earlier blocks; per-input cap reported); (b) 64-byte periodic inputs in blocks of 32 with every parse of <= 3/4 sequences over the move set ll in {0,1,2,5} x ml in {3,4,7,16,rest} x offset in {period, 2*period, max, 1}, which are large enough to be emitted compressed; (c) parses directed at the encoder's thresholds: sequence counts at 1,2,126..129,255,256,0x7EFF..0x7F01,0x7FFF..0x8001,43689; single-sequence blocks; all literal lengths 0; every literal-length and match-length code boundary up to a whole block; offsets 1, exactly the window, exactly n blocks back for windows of 1 KiB / 128 KiB / 8 MiB; Huffman / raw fallback / Huffman block triples; > 1024 literals of a single byte value. Oracle: no panic, this crate's decoder and libzstd return the input, the strict walker accepts, declared window >= reported window. non-trivial = parses with at least one match");
+    run.set("rule", "a scripted Matcher replays a parse through the public trait. (a) every input over {a,b} of length 3..=12/14, cut into blocks of 4 and of 11 bytes, with EVERY valid parse of every block (all tilings by literal runs and matches of length >= 3 at every offset whose source really equals the target, incl. zero-length literal runs, overlapping matches and matches into earlier blocks; per-input cap reported); (b) 64-byte periodic inputs in blocks of 32 with every parse of <= 3/4 sequences over the move set ll in {0,1,2,5} x ml in {3,4,7,16,rest} x offset in {period, 2*period, max, 1}, which are large enough to be emitted compressed; (c) parses directed at the encoder's thresholds: sequence counts at 1,2,126..129,255,256,0x7EFF..0x7F01,0x7FFF..0x8001,43689; single-sequence blocks; all literal lengths 0; every literal-length and match-length code boundary up to a whole block; offsets 1, exactly the window, exactly n blocks back for windows of 1 KiB / 128 KiB / 8 MiB; Huffman / raw fallback / Huffman block triples; > 1024 literals of a single byte value; (d) the Huffman table reuse decision: every ordered pair of alphabets that are subsets (>= 2 symbols) of 5/6 byte values x 9 frequency-profile pairs as three literal-only 1100-byte blocks (first alphabet, second, first again) through a matcher that reports no matches. Oracle: no panic, this crate's decoder and libzstd return the input, the strict walker accepts, declared window >= reported window. non-trivial = parses with at least one match");
     run.sample(json!({"input": "abababab", "block": 4, "parses": [[], [[0, 2, 4]]], "meaning": "second block is one match of length 4 at offset 2 with no literals"}));
     run.assume("well-behaved = literal runs and matches tile each block exactly, match length >= 3, offset <= declared window and <= data seen so far, source bytes equal target bytes; checked by the harness for every parse it feeds");
     run.finish()
